@@ -1401,7 +1401,9 @@ META['text'] += (' C16.tab: bounded-exhaustive tabulation - the real tokenize / 
                  'character covered once, equal to a reference tokenisation) and, for dictionaries of 1-3 phrases per shape '
                  'class (prefixes, overlaps, one phrase under two ids, two phrases under one id, dict form, irregular spacing, '
                  'touching tokens, two matchers in one process), on every query of a few tokens: find returns exactly the '
-                 'token-aligned occurrences with offsets, text and ids, independent of earlier calls and of other matchers.')
+                 'token-aligned occurrences with offsets, text and ids, independent of earlier calls and of other matchers. Phrases '
+                 'and queries must be tokenised alike (Han phrases written with and without blanks, both tokenizers), and the '
+                 'insertion order of prefix chains and repeated phrases must not matter (every order of small sets).')
 META['note'] = ('Decided only up to the stated bounds (see the observations in the evidence for string/query lengths): larger '
                 'dictionaries and longer queries are covered by the shape rules, not by tabulation. Not decided: the AcAutomaton '
                 'strategy (unusable on this tree: AaNode never initialises Node\'s fields; nothing selects it); whether Hangul '
